@@ -154,6 +154,7 @@ Section Sess.
          cbn [snd ss]; auto; eapply refresh_sinv; eauto. }
     destruct jwt; [exact I|].
     destruct (find_token C (ts C st) t) as [[id a]|]; [|exact I].
+    destruct (a_active C a); cbn [negb]; [|exact I].
     cbn [p_user].
     match goal with |- context [aget N.eqb ?u ?l] => destruct (aget N.eqb u l) as [[|]|] end; exact I.
   Qed.
